@@ -112,6 +112,14 @@ func apiRun(op string, a []string) []string {
 		d := toDec(a[0])
 		n, err := fmt.Sscanf(string(vBytes(a[2])), "%"+string(vBytes(a[1])), &d)
 		return []string{fromDec(d), sI64(int64(n)), errClass(err)}
+	case "api.BinRoundTrip":
+		b, err := toDec(a[0]).MarshalBinary()
+		if err != nil {
+			return []string{"marshal-error", errClass(err)}
+		}
+		d := toDec(a[1])
+		err = d.UnmarshalBinary(b)
+		return []string{fromDec(d), errClass(err)}
 	case "api.String":
 		return []string{sBytes([]byte(toDec(a[0]).String()))}
 	case "api.MarshalText":
